@@ -731,14 +731,60 @@ func (w *vC09World) reader() *vCCIPReader {
 	}
 }
 
+// a report of [width] messages of which the first [executed] are already executed
+func (w *vC09World) commitWide(t *testing.T, c cciptypes.ChainSelector, width, executed int) {
+	lo := w.next[c]
+	hi := lo + uint64(width) - 1
+	w.next[c] = hi + 1
+	ms := make([]cciptypes.Message, 0, width)
+	for s := lo; s <= hi; s++ {
+		m := w.msg(c, s)
+		w.msgs[c][s] = m
+		ms = append(ms, m)
+		if int(s-lo) < executed {
+			w.executed[c][s] = true
+		}
+	}
+	data := exectypes.CommitData{SourceChain: c,
+		SequenceNumberRange: cciptypes.NewSeqNumRange(cciptypes.SeqNum(lo), cciptypes.SeqNum(hi)), Messages: ms}
+	tree, err := report.ConstructMerkleTree(context.Background(), mocks.NewMessageHasher(), data, mocks.NullLogger)
+	if err != nil {
+		t.Fatal(err)
+	}
+	w.nextID++
+	w.now = w.now.Add(time.Second)
+	w.reps[c] = append(w.reps[c], vC09Rep{id: w.nextID, lo: lo, hi: hi})
+	w.reports = append(w.reports, plugintypes2.CommitPluginReportWithMeta{
+		Report: cciptypes.CommitPluginReport{MerkleRoots: []cciptypes.MerkleRootChain{{ChainSel: c,
+			SeqNumsRange: data.SequenceNumberRange, MerkleRoot: tree.Root()}}},
+		Timestamp: w.now, BlockNum: w.nextID})
+}
+
 func TestVerif_C09_history(t *testing.T) {
-	ctx := context.Background()
 	r := vNewRand(vSeed() + 94)
 	nHist := vEnvInt("VERIF_N", 40)
 	sink := vOpenSink("C09_history")
 	defer sink.Close()
 	for h := 0; h < nHist; h++ {
-		hr := vNewRand(r.U64())
+		vC09History(t, vNewRand(r.U64()), sink, "C09_history", false, h)
+	}
+}
+
+// histories that start with an oversized backlog: a small report followed by reports of 5001 messages with 5000
+// executed each, numbered near 2^62 so that the GetCommitReports observation exceeds maxObservationLength
+func TestVerif_C09_history_big(t *testing.T) {
+	r := vNewRand(vSeed() + 95)
+	nHist := vEnvInt("VERIF_N", 1)
+	sink := vOpenSink("C09_history_big")
+	defer sink.Close()
+	for h := 0; h < nHist; h++ {
+		vC09History(t, vNewRand(r.U64()), sink, "C09_history_big", true, h)
+	}
+}
+
+func vC09History(t *testing.T, hr *vRand, sink *vSink, sinkName string, big bool, h int) {
+	ctx := context.Background()
+	{
 		policy := vPick(hr, []string{"all-land", "all-land", "lossy", "none-land"})
 		w := &vC09World{r: hr, chains: []cciptypes.ChainSelector{1, 2}, msgs: map[cciptypes.ChainSelector]map[uint64]cciptypes.Message{},
 			reps: map[cciptypes.ChainSelector][]vC09Rep{}, executed: map[cciptypes.ChainSelector]map[uint64]bool{},
@@ -750,6 +796,14 @@ func TestVerif_C09_history(t *testing.T) {
 			w.msgs[c] = map[uint64]cciptypes.Message{}
 			w.executed[c] = map[uint64]bool{}
 			w.next[c] = uint64(hr.Range(1, 30))
+		}
+		if big {
+			w.chains = w.chains[:1]
+			w.next[1] = uint64(1)<<62 + uint64(hr.Range(1, 1000))
+			w.commitWide(t, 1, 3, 1)
+			for k := hr.Range(11, 13); k > 0; k-- {
+				w.commitWide(t, 1, 5001, 5000)
+			}
 		}
 		// the DON: four oracles, all reading every chain; one of them may lag or stay silent
 		hc := vNewHomeChain()
@@ -784,9 +838,15 @@ func TestVerif_C09_history(t *testing.T) {
 		prevState := exectypes.Unknown
 		cycleSnap := w.snapshot()
 		rounds := hr.Range(6, 30)
+		if big {
+			rounds = 6
+		}
 		for round := 1; round <= rounds; round++ {
 			// ---- the world moves ----
 			for _, c := range w.chains {
+				if big {
+					break // the backlog is the history
+				}
 				if hr.Chance(2, 5) {
 					w.commitLands(t, c)
 				}
@@ -868,7 +928,17 @@ func TestVerif_C09_history(t *testing.T) {
 				}
 				type cs struct{ c, s uint64 }
 				var sel []cs
-				for _, cr := range oc.Report.ChainReports {
+				// what the DON would transmit: execute.Plugin.Reports on the outcome, decoded with the report codec
+				reps, rerr := nodes[0].Reports(ctx, uint64(round), prev)
+				var sent cciptypes.ExecutePluginReport
+				if rerr == nil && len(reps) > 0 {
+					sent, rerr = nodes[0].reportCodec.Decode(ctx, reps[0].ReportWithInfo.Report)
+				}
+				if rerr != nil || len(reps) > 1 {
+					sent = cciptypes.ExecutePluginReport{ChainReports: []cciptypes.ExecutePluginReportSingleChain{{SourceChainSelector: 0,
+						Messages: []cciptypes.Message{{}}}}} // shows up as a message of no chain
+				}
+				for _, cr := range sent.ChainReports {
 					for _, m := range cr.Messages {
 						sel = append(sel, cs{uint64(cr.SourceChainSelector), uint64(m.Header.SequenceNumber)})
 					}
@@ -882,7 +952,24 @@ func TestVerif_C09_history(t *testing.T) {
 				for _, x := range sel {
 					ms = append(ms, cPair(cN(x.c), cN(x.s)))
 				}
-				out = "(Ok " + cPair(cList(ps), cList(ms)) + ")"
+				// the messages of the outcome's own report, for comparison with what is transmitted
+				var osel []cs
+				for _, cr := range oc.Report.ChainReports {
+					for _, m := range cr.Messages {
+						osel = append(osel, cs{uint64(cr.SourceChainSelector), uint64(m.Header.SequenceNumber)})
+					}
+				}
+				sort.Slice(osel, func(i, j int) bool {
+					if osel[i].c != osel[j].c {
+						return osel[i].c < osel[j].c
+					}
+					return osel[i].s < osel[j].s
+				})
+				var oms []string
+				for _, x := range osel {
+					oms = append(oms, cPair(cN(x.c), cN(x.s)))
+				}
+				out = "(Ok " + cTup(cList(ps), cList(ms), cList(oms)) + ")"
 				// the report lands (or not)
 				for _, x := range sel {
 					switch policy {
@@ -901,12 +988,209 @@ func TestVerif_C09_history(t *testing.T) {
 					prevState = oc.State
 				}
 			}
-			sink.Emit("C09_history", fmt.Sprintf("%s/%s/state-%d", policy, faulty, stateN), stateN == 3,
+			sink.Emit(sinkName, fmt.Sprintf("%s/%s/state-%d", policy, faulty, stateN), stateN == 3,
 				cPair(cPair(cNi(stateN), cycleSnap), out),
 				map[string]any{"history": h, "round": round, "state": stateN, "policy": policy, "faulty": faulty, "snapshot": cycleSnap, "out": out})
 			if out == "Err" || out == "Panic" {
 				break
 			}
 		}
+	}
+}
+
+// ---------------------------------------------------------------------------------------------------------------
+// GetCommitReports phase at Plugin.Observation level with backlogs whose encoded observation lies around
+// maxObservationLength (sequence numbers near 2^62: 20 bytes per executed number). Judged like the pending part:
+// the decoded observation must hold, per pending report, the destination's executed set inside its interval -
+// whatever the size of the observation.
+func TestVerif_C09_observe(t *testing.T) {
+	ctx := context.Background()
+	r := vNewRand(vSeed() + 96)
+	n := vEnvInt("VERIF_N", 6)
+	sink := vOpenSink("C09_observe")
+	defer sink.Close()
+	classes := []string{"above-limit", "just-below-limit", "above-limit-two-chains", "far-above", "small", "above-limit"}
+	for i := 0; i < n; i++ {
+		lr := vNewRand(r.U64())
+		cls := classes[i%len(classes)]
+		// encoded bytes of the executed numbers the observation will carry (20 bytes per number, ~330 per report)
+		target := map[string]int{"above-limit": 1090000, "just-below-limit": 985000, "above-limit-two-chains": 1120000, "far-above": 1800000, "small": 6000}[cls]
+		nch := 1
+		if cls == "above-limit-two-chains" {
+			nch = 2
+		}
+		type chainW struct {
+			sel  cciptypes.ChainSelector
+			reps []vC09Rep
+			set  []uint64
+		}
+		var chains []chainW
+		var crs []plugintypes2.CommitPluginReportWithMeta
+		ts := 0
+		for k := 0; k < nch; k++ {
+			cw := chainW{sel: cciptypes.ChainSelector(k + 1)}
+			next := uint64(1)<<62 + uint64(lr.Range(1, 100000))
+			left := target / nch
+			for id := uint64(1); left > 0 || id == 1; id++ {
+				width := uint64(lr.Range(3000, 6000))
+				if id == 1 || cls == "small" {
+					width = uint64(lr.Range(2, 6))
+				}
+				if lr.Chance(1, 5) {
+					next += uint64(lr.Range(1, 3)) // hole
+				}
+				p := vC09Rep{id: uint64(k)*100 + id, lo: next, hi: next + width - 1}
+				next = p.hi + 1
+				cw.reps = append(cw.reps, p)
+				// executed: everything but a few, everything (the report is no longer pending), or a prefix
+				miss := map[uint64]bool{}
+				switch lr.Intn(6) {
+				case 0:
+				case 1:
+					for s := p.lo + width/2; s <= p.hi; s++ {
+						miss[s] = true
+					}
+				default:
+					for m := lr.Range(1, 3); m > 0; m-- {
+						miss[p.lo+uint64(lr.Intn(int(width)))] = true
+					}
+				}
+				left -= 330
+				for s := p.lo; s <= p.hi; s++ {
+					if !miss[s] {
+						cw.set = append(cw.set, s)
+						if len(miss) > 0 { // a fully executed report is not in the observation
+							left -= 20
+						}
+					}
+				}
+				ts++
+				crs = append(crs, plugintypes2.CommitPluginReportWithMeta{Report: cciptypes.CommitPluginReport{
+					MerkleRoots: []cciptypes.MerkleRootChain{{ChainSel: cw.sel,
+						SeqNumsRange: cciptypes.NewSeqNumRange(cciptypes.SeqNum(p.lo), cciptypes.SeqNum(p.hi)), MerkleRoot: vC17B32x(p.id)}}},
+					Timestamp: time.Now().UTC().Add(-time.Hour).Add(time.Duration(ts) * time.Second), BlockNum: uint64(ts)})
+			}
+			chains = append(chains, cw)
+		}
+		type call struct {
+			c   cciptypes.ChainSelector
+			q   cciptypes.SeqNumRange
+			ans []vC09Range
+		}
+		var calls []call
+		rd := &vCCIPReader{
+			CommitReportsFn: func(dest cciptypes.ChainSelector, t time.Time, limit int) ([]plugintypes2.CommitPluginReportWithMeta, error) {
+				return crs, nil
+			},
+			ExecutedFn: func(source, dest cciptypes.ChainSelector, q cciptypes.SeqNumRange) ([]cciptypes.SeqNumRange, error) {
+				for _, cw := range chains {
+					if cw.sel != source {
+						continue
+					}
+					// runs of the executed set inside the query, cut into chunks, in any order
+					var ans []vC09Range
+					for i := 0; i < len(cw.set); {
+						if cw.set[i] < uint64(q.Start()) || cw.set[i] > uint64(q.End()) {
+							i++
+							continue
+						}
+						j := i
+						lim := lr.Range(500, 3000)
+						for j+1 < len(cw.set) && cw.set[j+1] == cw.set[j]+1 && cw.set[j+1] <= uint64(q.End()) && j-i < lim {
+							j++
+						}
+						ans = append(ans, vC09Range{cw.set[i], cw.set[j]})
+						i = j + 1
+					}
+					for k := len(ans) - 1; k > 0; k-- {
+						x := lr.Intn(k + 1)
+						ans[k], ans[x] = ans[x], ans[k]
+					}
+					calls = append(calls, call{source, q, ans})
+					return vC09ToSeqRanges(ans), nil
+				}
+				return nil, nil
+			},
+		}
+		hc := vNewHomeChain()
+		p2p := map[commontypes.OracleID]libocrtypes.PeerID{0: vPeer(0)}
+		for _, c := range []cciptypes.ChainSelector{1, 2, 900} {
+			hc.SetChain(c, 1, []libocrtypes.PeerID{vPeer(0)})
+		}
+		p := &Plugin{
+			reportingCfg: ocr3types.ReportingPluginConfig{OracleID: 0, F: 1, N: 4},
+			offchainCfg: pluginconfig.ExecuteOffchainConfig{BatchGasLimit: 100000000,
+				MessageVisibilityInterval: *commonconfig.MustNewDuration(8 * time.Hour)},
+			destChain: 900, ccipReader: rd, reportCodec: mocks.NewExecutePluginJSONReportCodec(),
+			msgHasher: mocks.NewMessageHasher(), homeChain: hc,
+			chainSupport:          plugincommon.NewChainSupport(mocks.NullLogger, hc, p2p, 0, 900),
+			oracleIDToP2pID:       p2p,
+			tokenDataObserver:     &tokendata.NoopTokenDataObserver{},
+			costlyMessageObserver: costlymessages.NewObserver(mocks.NullLogger, false, nil, nil),
+			estimateProvider:      vC09Gas{},
+			lggr:                  mocks.NullLogger,
+		}
+		var out string
+		size := 0
+		func() {
+			defer func() {
+				if rec := recover(); rec != nil {
+					out = "Panic"
+				}
+			}()
+			b, err := p.Observation(ctx, ocr3types.OutcomeContext{SeqNr: 1}, nil)
+			if err != nil {
+				out = "Err"
+				return
+			}
+			size = len(b)
+			obs, err := exectypes.DecodeObservation(b)
+			if err != nil {
+				out = "Err"
+				return
+			}
+			keys := make([]cciptypes.ChainSelector, 0, len(obs.CommitReports))
+			for c := range obs.CommitReports {
+				keys = append(keys, c)
+			}
+			sort.Slice(keys, func(a, b int) bool { return keys[a] < keys[b] })
+			var cs []string
+			for _, c := range keys {
+				cs = append(cs, cPair(cN(uint64(c)), cMap(obs.CommitReports[c], func(d exectypes.CommitData) string {
+					id := uint64(0)
+					for x := 0; x < 8; x++ {
+						id = id<<8 | uint64(d.MerkleRoot[24+x])
+					}
+					return cApp("mkRep", cN(id), cN(uint64(d.SequenceNumberRange.Start())), cN(uint64(d.SequenceNumberRange.End())),
+						vC09Runs(d.ExecutedMessages))
+				})))
+			}
+			out = "(Ok " + cList(cs) + ")"
+		}()
+		var rs []string
+		for _, cr := range crs {
+			m := cr.Report.MerkleRoots[0]
+			id := uint64(0)
+			for x := 0; x < 8; x++ {
+				id = id<<8 | uint64(m.MerkleRoot[24+x])
+			}
+			rs = append(rs, cList([]string{cPair(cN(uint64(m.ChainSel)),
+				cApp("mkRep", cN(id), cN(uint64(m.SeqNumsRange.Start())), cN(uint64(m.SeqNumsRange.End())), "[]"))}))
+		}
+		var tab, world []string
+		for _, c := range calls {
+			tab = append(tab, cTup(cN(uint64(c.c)), vC09Run(uint64(c.q.Start()), uint64(c.q.End())), cSome(vC09RangesCoq(c.ans))))
+		}
+		nExec := 0
+		for _, cw := range chains {
+			xs := make([]cciptypes.SeqNum, len(cw.set))
+			for k, s := range cw.set {
+				xs[k] = cciptypes.SeqNum(s)
+			}
+			nExec += len(xs)
+			world = append(world, cPair(cN(uint64(cw.sel)), vC09Runs(xs)))
+		}
+		sink.Emit("C09_observe", cls, true, cPair(cTup(cSome(cList(rs)), cList(tab), cList(world)), out),
+			map[string]any{"class": cls, "reports": len(crs), "executedNumbers": nExec, "observationBytes": size, "limit": maxObservationLength})
 	}
 }
